@@ -127,29 +127,37 @@ func childStore(casePath, dir string, budget int64) {
 	os.Stdout.Write(out)
 }
 
-func runChild(timeout time.Duration, args ...string) (childResult, string) {
+func runChildRaw(timeout time.Duration, args ...string) ([]byte, string) {
 	cmd := exec.Command(os.Args[0], args...)
 	var out, errb bytes.Buffer
 	cmd.Stdout = &out
 	cmd.Stderr = &errb
 	if err := cmd.Start(); err != nil {
-		return childResult{}, "spawn:" + err.Error()
+		return nil, "spawn:" + err.Error()
 	}
 	done := make(chan error, 1)
 	go func() { done <- cmd.Wait() }()
 	select {
 	case err := <-done:
 		if err != nil {
-			return childResult{}, "panic: " + lastLines(errb.String(), 6)
+			return nil, "panic: " + lastLines(errb.String(), 6)
 		}
 	case <-time.After(timeout):
 		cmd.Process.Kill()
 		<-done
-		return childResult{}, "hang"
+		return nil, "hang"
+	}
+	return out.Bytes(), ""
+}
+
+func runChild(timeout time.Duration, args ...string) (childResult, string) {
+	raw, fail := runChildRaw(timeout, args...)
+	if fail != "" {
+		return childResult{}, fail
 	}
 	var res childResult
-	if err := json.Unmarshal(out.Bytes(), &res); err != nil {
-		return childResult{}, "panic: bad child output " + lastLines(out.String()+errb.String(), 4)
+	if err := json.Unmarshal(raw, &res); err != nil {
+		return childResult{}, "panic: bad child output " + lastLines(string(raw), 4)
 	}
 	return res, ""
 }
